@@ -196,6 +196,7 @@ static int new_packet(int sk_fd, int can_socket) {
         }
 
         if (can_variant == AVTP_CAN_FD) {
+            frame.fd.flags = 0;
             if (Avtp_Can_GetBrs((Avtp_Can_t*)acf_pdu)) {
                 frame.fd.flags |= CANFD_BRS;
             }
